@@ -487,8 +487,10 @@ pub fn run(o: &crate::Opts) {
     counts.push(("script_splits", n));
 
     drop(emit);
-    let mut stats = format!("{{\"cases\":{},\"scripts\":{},\"script_split_cases_all_shards\":{},\"exhaustive_max_len\":{}",
-        sink.n, nscripts, nsplit, maxlen);
+    // per-run constants are reported by shard 0 only (the check sums integer fields over shards)
+    let once = |v: u64| if o.shard == 0 { v } else { 0 };
+    let mut stats = format!("{{\"cases\":{},\"scripts\":{},\"script_split_cases\":{},\"exhaustive_max_len\":{}",
+        sink.n, once(nscripts as u64), once(nsplit), once(maxlen as u64));
     for (k, v) in &counts {
         stats.push_str(&format!(",\"{}\":{}", k, v));
     }
